@@ -36,6 +36,10 @@ func rulesC01(c *Ctx) {
 	c11Post(c)
 	c16Executor(c)
 	ruleFailureResult(c)
+	// which error the caller receives when policies are nested (a Timeout inside a retry, a cancellation during a
+	// later attempt) is decided by the execution's cancel-result slot: it is reported while set and discarded when
+	// the next attempt starts, so that an inner policy's stale verdict never replaces the outer policy's
+	execStateMethods(c, map[string]bool{"Cancel": true, "InitializeRetry": true, "IsCanceledWithResult": true, "isCanceledWithResult": true})
 }
 
 // resultField loads field f of the PolicyResult a returned pointer term points to.
